@@ -327,7 +327,7 @@ impl WVal for () {
     }
 }
 
-type Exp = BTreeMap<Key, (Raw, u64)>;
+pub type Exp = BTreeMap<Key, (Raw, u64)>;
 
 fn exp_under(exp: &Exp, p: Key) -> Vec<Ent> {
     exp.iter().filter(|(k, _)| p.covers(**k)).map(|(k, x)| Ent { key: *k, raw: x.0, v: x.1 }).collect()
@@ -506,7 +506,7 @@ fn run_setop_mut<'x, 'y: 'x, P: SimPrefix, T: WVal, Rr: WVal>(
     }
 }
 
-fn run_session<'a, P: SimPrefix, T: WVal>(ctx: &mut Ctx, w: &mut World<P>, self_idx: usize, root: TrieViewMut<'a, P, T>, t0: &Truth, acts: &[MAct]) -> R<(Exp, bool, Vec<usize>)> {
+pub fn run_session<'a, P: SimPrefix, T: WVal>(ctx: &mut Ctx, mut w: Option<&mut World<P>>, self_idx: usize, root: TrieViewMut<'a, P, T>, t0: &Truth, acts: &[MAct]) -> R<(Exp, bool, Vec<usize>)> {
     let mut s: Sess<'a, P, T> = Sess {
         pool: vec![root],
         iters: vec![],
@@ -768,6 +768,7 @@ fn run_session<'a, P: SimPrefix, T: WVal>(ctx: &mut Ctx, w: &mut World<P>, self_
                 if n == 0 {
                     continue;
                 }
+                let Some(w) = w.as_deref_mut() else { continue };
                 let oi = w.cidx(*other);
                 if oi == self_idx {
                     continue;
@@ -838,7 +839,7 @@ pub fn mut_session<P: SimPrefix>(w: &mut World<P>, ctx: &mut Ctx, target: Opnd, 
             let t0 = w.truths[i].clone();
             // take the container out of the world so that other containers stay reachable
             let mut real: PrefixMap<P, Val> = std::mem::take(&mut w.maps[i].real);
-            let r = run_session(ctx, w, i, real.view_mut(), &t0, acts);
+            let r = run_session(ctx, Some(w), i, real.view_mut(), &t0, acts);
             w.maps[i].real = real;
             let (exp, changed, mut touched) = r?;
             post_session(ctx, &t0, &truth_of(&w.maps[i].real.verif_snapshot()), &exp, "map")?;
@@ -853,7 +854,7 @@ pub fn mut_session<P: SimPrefix>(w: &mut World<P>, ctx: &mut Ctx, target: Opnd, 
             let i = i as usize;
             let t0 = w.truths[nm + i].clone();
             let mut real: PrefixSet<P> = std::mem::take(&mut w.sets[i].real);
-            let r = run_session(ctx, w, nm + i, real.view_mut(), &t0, acts);
+            let r = run_session(ctx, Some(w), nm + i, real.view_mut(), &t0, acts);
             w.sets[i].real = real;
             let (exp, changed, mut touched) = r?;
             post_session(ctx, &t0, &truth_of(&w.sets[i].real.verif_snapshot()), &exp, "set")?;
